@@ -21,7 +21,7 @@ pub fn def() -> PropDef {
         check,
         genome_len: 1100,
         quick_cases: 100_000,
-        thorough_cases: 6_400_000,
+        thorough_cases: 3_200_000,
         rule: "case = one operation of the internal tower on generated elements: Fq4 {add, sub, neg, double, triple, mul, mul_1 (b.c0=0), squared, inverse, the eight internal Frobenius codes, scale, scale_fq, mul_by_nonresidue, unitary_inverse, to_slice}, Fq12 {add, sub, neg, double, triple, mul, mul_015 (sparse right operand), squared, inverse, frobenius 1/2/3/6, scale, mul_by_nonresidue, pow(u128) with exponents {0,1,2,9,SM9_S,SM9_A2,SM9_A3,2^k,uniform}, pow(Fr), to_slice}, the four-term interleaved sum of products with its carry class computed in the model, both final exponentiations (vs. plain x^((q^12-1)/r)), and both Miller loops; elements from coefficient vectors: uniform, sparse (1-2 non-zero), subfield (Fq, Fq2, Fq4, Fq6), unitary (x^(q^6-1) image) and zero, coefficients from the limb-boundary classes; non-trivial = element not in {0,1} and not a pairing value; distinct by (operation, operands)",
         required: crate::runner::req(&[
             "kind:fq4", "kind:fq12", "kind:sop4", "kind:pow", "kind:finalexp", "kind:miller", "elem:uniform", "elem:sparse", "elem:subfield", "elem:unitary", "elem:zero", "sop4:carry0", "sop4:carry1",
